@@ -40,7 +40,10 @@ func Arithm(cfg *Config, expr syntax.ArithmExpr) (int, error) {
 	case *syntax.UnaryArithm:
 		switch expr.Op {
 		case syntax.Inc, syntax.Dec:
-			name := expr.X.(*syntax.Word).Lit()
+			name, err := arithmLvalue(expr.X)
+			if err != nil {
+				return 0, err
+			}
 			old := atoi(cfg.envGet(name))
 			val := old
 			if expr.Op == syntax.Inc {
@@ -121,6 +124,18 @@ func Arithm(cfg *Config, expr syntax.ArithmExpr) (int, error) {
 	default:
 		panic(fmt.Sprintf("unexpected arithm expr: %T", expr))
 	}
+}
+
+// arithmLvalue returns the variable name that an increment, decrement or assignment
+// operates on. Only plain names are supported for now; anything else, such as the array
+// element in $((a[0]++)), is reported as an error rather than looked up with an empty name.
+func arithmLvalue(expr syntax.ArithmExpr) (string, error) {
+	if w, ok := expr.(*syntax.Word); ok {
+		if name := w.Lit(); syntax.ValidName(name) {
+			return name, nil
+		}
+	}
+	return "", fmt.Errorf("unsupported assignment target in arithmetic expression")
 }
 
 func oneIf(b bool) int {
@@ -207,7 +222,10 @@ func atoiLargeBase(s string, base int64) int64 {
 }
 
 func (cfg *Config) assgnArit(b *syntax.BinaryArithm) (int, error) {
-	name := b.X.(*syntax.Word).Lit()
+	name, err := arithmLvalue(b.X)
+	if err != nil {
+		return 0, err
+	}
 	val := atoi(cfg.envGet(name))
 	arg_, err := Arithm(cfg, b.Y)
 	if err != nil {
